@@ -1,0 +1,25 @@
+//go:build verif
+
+package syntax
+
+// verification hook (build tag `verif`): deterministic step counter for the lexer
+// (one tick per cursor advance). It only counts; when a budget is set and exceeded it
+// panics with a non-error value, which Parser.Parse re-panics to the embedding harness.
+
+// VerifBudgetExceeded - panic value raised when the tick budget is exhausted
+type VerifBudgetExceeded struct {
+	Ticks int64
+}
+
+// VerifTickBudget - 0 means unlimited
+var VerifTickBudget int64
+
+// VerifTicks - ticks consumed since the last reset
+var VerifTicks int64
+
+func verifTick() {
+	VerifTicks++
+	if VerifTickBudget > 0 && VerifTicks > VerifTickBudget {
+		panic(VerifBudgetExceeded{Ticks: VerifTicks})
+	}
+}
